@@ -1379,20 +1379,61 @@ func checkCandidatePositionsUsed(p *Program, r *Report, rule string, a *verifyAn
 			}
 			n++
 			key := p.FuncName(fn) + "/candidate-positions"
-			used := false
 			res := a.core.Signature.Results()
+			var posRes []ssa.Value
 			for i := 0; i < res.Len(); i++ {
 				if !p.localNamed(res.At(i).Type(), "hashAndPos") && !isPositionSlice(res.At(i).Type()) {
 					continue
 				}
 				if v := resultValue(sc.call, i); v != nil && len(nonDebugRefs(v)) > 0 {
-					used = true
+					posRes = append(posRes, v)
 				}
 			}
-			if used {
-				r.Discharge(rule, key, posOf(p, sc.call), "the verifier uses the positions the core computed the candidates at", true)
-			} else {
+			if len(posRes) == 0 {
 				r.Violate(rule, key, posOf(p, sc.call), "the verifier discards the positions at which the core computed the root candidates and matches the candidate hashes against the roots as an in-order subsequence: a hash equal to the root of one tree is accepted at the root position of another tree", "in "+p.FuncName(fn))
+				continue
+			}
+			fromPositions := func(v ssa.Value) bool {
+				return flowsFrom(v, func(x ssa.Value) bool {
+					for _, pr := range posRes {
+						if x == pr {
+							return true
+						}
+					}
+					return false
+				}, 0, map[ssa.Value]bool{})
+			}
+			// every hash-equality match test must be joined, on the way to some block,
+			// with an equality on a value that flows from those positions
+			C, _ := candidatesIn(p, fn, a.core)
+			tests := matchTests(fn, C)
+			if C == nil || len(tests) == 0 {
+				r.Undecided(rule, key, posOf(p, sc.call), "cannot find the comparison of candidates with the stored roots")
+				continue
+			}
+			allJoined := true
+			for _, t := range tests {
+				joined := false
+				for _, b := range fn.Blocks {
+					hasT, hasP := false, false
+					for _, g := range guardsAt(b) {
+						if g.Truth && g.Cond == ssa.Value(t) {
+							hasT = true
+						}
+						if rel, ok := relOf(g); ok && rel.Op == token.EQL && !isHashType(rel.X.Type()) && (fromPositions(rel.X) || fromPositions(rel.Y)) {
+							hasP = true
+						}
+					}
+					if hasT && hasP {
+						joined = true
+					}
+				}
+				allJoined = allJoined && joined
+			}
+			if allJoined {
+				r.Discharge(rule, key, posOf(p, sc.call), "a root counts as matched only where, besides the hash equality, an equality on the position the candidate was computed at holds", true)
+			} else {
+				r.Violate(rule, key, posOf(p, sc.call), "the positions the core computed the candidates at are read, but the match of a candidate with a stored root is not conditioned on an equality of positions: a hash equal to the root of one tree is accepted at the root position of another tree", "in "+p.FuncName(fn))
 			}
 		}
 	}
